@@ -258,10 +258,11 @@ class ReplacementFrontend(ConstrainedFrontend):
         return super()._concrete_constraint(e)
 
     def _add(self, constraints, invalidate_cache=True):
-        # constraints a replacement was just learnt from: they must reach the actual frontend as they are, replacing
-        # them would turn them into `true` (x == 5 becomes 5 == 5) and the fact would be lost for everything the
-        # actual frontend already holds
-        defining = set()
+        # constraints a replacement was just learnt from: they must reach the actual frontend without that replacement,
+        # it would turn them into `true` (x == 5 becomes 5 == 5) and the fact would be lost for everything the
+        # actual frontend already holds. The replacements known before still apply (the actual frontend never hears
+        # of those recorded with add_replacement()): constraint hash -> the constraint as it was under them
+        defining = {}
         if self._auto_replace:
             for c in constraints:
                 # the badass thing here would be to use the *replaced* constraint, but
@@ -280,9 +281,10 @@ class ReplacementFrontend(ConstrainedFrontend):
                         old, new = rc.args if rc.args[0].symbolic else rc.args[::-1]
                     if old is not None:
                         known = old.hash() in self._replacements
+                        before = None if known else self._replacement(c)
                         self.add_replacement(old, new, replace=False, promote=True, invalidate_cache=True)
                         if not known and old.hash() in self._replacements:
-                            defining.add(c.hash())
+                            defining[c.hash()] = before
                 else:
                     satisfiable, replacements = backends.vsa.constraint_to_si(rc)
                     if not satisfiable:
@@ -298,7 +300,7 @@ class ReplacementFrontend(ConstrainedFrontend):
                         self.add_replacement(old, rold.intersection(new))
 
         added = super()._add(constraints)
-        cr = tuple(c if c.hash() in defining else self._replacement(c) for c in added)
+        cr = tuple(defining[c.hash()] if c.hash() in defining else self._replacement(c) for c in added)
         if not self._allow_symbolic and any(c.symbolic for c in cr):
             raise ClaripyFrontendError(
                 "symbolic constraints made it into ReplacementFrontend with allow_symbolic=False"
